@@ -418,18 +418,36 @@ func TraceRun(p Property, e *Env, i int) int {
 
 // Hashes prints the trace hash of runs [from, from+count) — used by the determinism self-test.
 func Hashes(p Property, e *Env, from, count int) int {
-	for i := from; i < from+count; i++ {
+	// VERIF_HASH_ORDER: "" = ascending; "rev" = the same runs executed in descending order;
+	// "replay" = every run executed twice, the second time from the tape the first one
+	// recorded, and the second execution is what is printed. All three must print the same
+	// lines: a run's outcome may depend on its tape and on nothing else — not on which runs
+	// the process executed before it, and not on whether the tape is generated or fed back.
+	order := os.Getenv("VERIF_HASH_ORDER")
+	lines := make([]string, count)
+	for k := 0; k < count; k++ {
+		i := from + k
+		if order == "rev" {
+			i = from + count - 1 - k
+		}
 		seed := Mix(e.Seed, p.ID(), uint64(i))
-		res := ExecTape(p, NewTape(seed), RunOpts{Tier: e.Tier, IsKnown: e.isKnown})
+		tape := NewTape(seed)
+		res := ExecTape(p, tape, RunOpts{Tier: e.Tier, IsKnown: e.isKnown})
+		if order == "replay" && res.Infra == "" {
+			res = ExecTape(p, ReplayTape(append([]uint64(nil), tape.Rec...)), RunOpts{Tier: e.Tier, IsKnown: e.isKnown})
+		}
 		if res.Infra != "" {
-			fmt.Printf("%d infra %s\n", i, res.Infra)
+			lines[i-from] = fmt.Sprintf("%d infra %s\n", i, res.Infra)
 			continue
 		}
 		v := "-"
 		if res.Violation != nil {
 			v = res.Violation.Invariant
 		}
-		fmt.Printf("%d %016x %d %s\n", i, res.TraceHash, res.Steps, v)
+		lines[i-from] = fmt.Sprintf("%d %016x %d %s\n", i, res.TraceHash, res.Steps, v)
+	}
+	for _, l := range lines {
+		fmt.Print(l)
 	}
 	return 0
 }
@@ -488,7 +506,10 @@ func Check(p Property, e *Env) int {
 	}
 	det := map[string]interface{}{"seeds": k, "processes": 0, "mismatches": 0}
 	if k > 0 {
-		procs := []int{1, 4, 16, 16}
+		procs := []int{1, 4, 16, 2}
+		// the second process executes the runs in descending order, the fourth executes each run
+		// twice (generated, then replayed from its own record): a run must depend on its tape only
+		orders := map[int]string{1: "", 4: "rev", 16: "", 2: "replay"}
 		type hres struct {
 			out string
 			err error
@@ -498,7 +519,7 @@ func Check(p Property, e *Env) int {
 			ch[i] = make(chan hres, 1)
 			go func(gp int, c chan hres) {
 				cmd := exec.Command(e.Self, "hashes", id, e.Tier, "0", strconv.Itoa(k))
-				cmd.Env = append(os.Environ(), "GOMAXPROCS="+strconv.Itoa(gp))
+				cmd.Env = append(os.Environ(), "GOMAXPROCS="+strconv.Itoa(gp), "VERIF_HASH_ORDER="+orders[gp])
 				b, err := cmd.Output()
 				c <- hres{string(b), err}
 			}(gp, ch[i])
@@ -524,12 +545,13 @@ func Check(p Property, e *Env) int {
 		}
 		det["processes"] = len(procs)
 		det["gomaxprocs"] = procs
+		det["orders"] = []string{"ascending", "descending", "ascending", "each run generated, then replayed from its own record"}
 		det["mismatches"] = mism
 		if mism > 0 {
 			fmt.Printf("INFRA %s: determinism self-test failed (harness nondeterminism), nothing reported\n", id)
 			return 2
 		}
-		fmt.Printf("determinism self-test: %d seeds x %d processes identical\n", k, len(procs))
+		fmt.Printf("determinism self-test: %d seeds x %d processes identical (ascending, descending, ascending, generated-then-replayed)\n", k, len(procs))
 	}
 
 	// 3. sharded batch
